@@ -1624,3 +1624,77 @@ func lemmaSliceConcat(seq Sequence, c int) Sequence {
 //@   ensures t == ite(len(rr) > 0, rr[len(rr)-1].(Segment)[1], 0)
 //@   assigns nothing
 
+
+// ---------------------------------------------------------------------------
+// Region / Len / Complement of each location kind (C08, C15, C05): what a locator, extract and
+// the strand-aware operations read off a location.
+//@ func (between Between) Region() (out Region)
+//@   prop C08 C15
+//@   ensures is(out, Segment) && out.(Segment)[0] == int(between) && out.(Segment)[1] == int(between)
+//@   assigns nothing
+//@ func (point Point) Region() (out Region)
+//@   prop C08 C15
+//@   ensures is(out, Segment) && out.(Segment)[0] == int(point) && out.(Segment)[1] == int(point) + 1
+//@   assigns nothing
+//@ func (ranged Ranged) Region() (out Region)
+//@   prop C08 C15
+//@   ensures is(out, Segment) && out.(Segment)[0] == ranged.Start && out.(Segment)[1] == ranged.End
+//@   assigns nothing
+//@ func (ambiguous Ambiguous) Region() (out Region)
+//@   prop C08 C15
+//@   ensures is(out, Segment) && out.(Segment)[0] == ambiguous.Start && out.(Segment)[1] == ambiguous.End
+//@   assigns nothing
+// A complement of a leaf location reads on the other strand: the same ends, swapped.
+//@ func (complement Complemented) Region@leaf() (out Region)
+//@   prop C08 C15 C05
+//@   requires isLeaf(complement.Location)
+//@   ensures is(out, Segment) && out.(Segment)[0] == spanHi(complement.Location) && out.(Segment)[1] == spanLo(complement.Location)
+//@   assigns nothing
+//@ func (joined Joined) Region() (out Region)
+//@   prop C08 C15
+//@   requires forall k in 0..len(joined): !isnil(joined[k])
+//@   ensures is(out, Regions) && len(out.(Regions)) == len(joined) && fresh(out.(Regions))
+//@   assigns nothing
+//@   loop 1: invariant fresh(rr) && len(rr) == len(joined)
+//@   loop 1: decreases len(joined) - i
+
+//@ func (between Between) Len() (n int)
+//@   prop C08
+//@   ensures n == 0
+//@ func (point Point) Len() (n int)
+//@   prop C08
+//@   ensures n == 1
+//@ func (ranged Ranged) Len() (n int)
+//@   prop C08
+//@   ensures n == ranged.End - ranged.Start
+
+//@ func (between Between) Complement() (out Location)
+//@   prop C05
+//@   ensures is(out, Complemented) && is(out.(Complemented).Location, Between) && out.(Complemented).Location.(Between) == between
+//@   assigns nothing
+//@ func (point Point) Complement() (out Location)
+//@   prop C05
+//@   ensures is(out, Complemented) && is(out.(Complemented).Location, Point) && out.(Complemented).Location.(Point) == point
+//@   assigns nothing
+//@ func (ranged Ranged) Complement() (out Location)
+//@   prop C05
+//@   ensures is(out, Complemented) && is(out.(Complemented).Location, Ranged) && out.(Complemented).Location.(Ranged) == ranged
+//@   assigns nothing
+//@ func (complement Complemented) Complement() (out Location)
+//@   prop C05
+//@   ensures out == complement.Location
+//@   assigns nothing
+//@ func (complement Complemented) Reverse(length int) (out Location)
+//@   prop C05 C11
+//@   requires !isnil(complement.Location)
+//@   ensures is(out, Complemented) && out.(Complemented).Location == revL(complement.Location, length)
+//@   assigns nothing
+
+// A segment read off a sequence: the window [head, tail) on the forward strand; with the ends
+// swapped, the reverse complement of the window [tail, head).
+//@ func (s Segment) Locate@forward(seq Sequence) (out Sequence)
+//@   prop C08 C15
+//@   requires !isnil(seq) && oldSeq(seq) && coord(len(bytesOf(seq))) && 0 <= s[0] && s[0] <= s[1] && s[1] <= len(bytesOf(seq))
+//@   ensures !isnil(out) && len(bytesOf(out)) == s[1] - s[0]
+//@   ensures window: forall k in 0..s[1]-s[0]: bytesOf(out)[k] == old(bytesOf(seq)[s[0]+k])
+//@   assigns nothing
